@@ -44,6 +44,12 @@ def make_state(scn, w, case, si=0):
         return h
 
     h = one(case["fills"])
+    if case.get("inf_weight_fill") is not None and w.records:
+        # one datum of infinite weight: entries (and what depends on it) are written as the strings "inf" / "nan"
+        f = call(h.fill, w.records[case["inf_weight_fill"] % len(w.records)], float("inf"))
+        if not f.ok:
+            raise scn.violation(exc_site(f.exc)[0], "fill", "exception:%s" % type(f.exc).__name__, f.describe(), si)
+        w.bump("probe_infinite_weight_state")
     if case.get("fills2") is not None:
         h2 = one(case["fills2"])
         o = call(lambda: h + h2)
@@ -84,6 +90,7 @@ class C15(Scenario):
         cuts = sorted(set(f.random() for _ in range(6)))
         return {"spec": sp, "records": [specmod.enc_record(r) for r in recs], "fills": fills, "fills2": fills2,
                 "scales": f.pick([None, None, None, None, [2.0], [0.5, 3], [1e-200, 1e-200], [5e-324, 0.5]]),
+                "inf_weight_fill": f.randrange(10) if f.chance(0.08) else None,
                 "steps": [{"op": "enumerate", "only": None, "cuts": cuts}]}
 
     def run(self, case, w, R):
